@@ -3,7 +3,7 @@ import os, json, random, time
 import vlib, games, uci
 
 WATCHDOG = 20.0
-POSITIONS = ["position startpos", "position startpos moves e2e4 e7e5 g1f3",
+POSITIONS = ["position startpos", "position startpos moves e2e4 e7e5 g1f3", "position fen 7k/8/8/8/8/8/r7/7K w - - 0 1",
              "position fen r3k2r/p1ppqpb1/bn2pnp1/3PN3/1p2P3/2N2Q1p/PPPBBPPP/R3K2R w KQkq - 0 1",
              "position fen 8/2p5/3p4/KP5r/1R3p1k/8/4P1P1/8 w - - 0 1 moves b4b1",
              "position fen 7k/5Q2/6K1/8/8/8/8/8 w - - 0 1"]
@@ -33,7 +33,12 @@ def graph_paths(chk, maxcmds, limit):
 
 def replay_path(args):
     binary, nodes, path, workdir, tag = args
-    cmds, sched = uci.path_to_script(nodes, path)
+    # every script starts from a position chosen by the path's number, so that forced-move / mate-in-one / ordinary
+    # positions all occur under every kind of interleaving
+    variant = int(tag[4:]) if tag[4:].isdigit() else 0
+    cmds, sched = uci.path_to_script(nodes, path, variant)
+    cmds = [uci.SCRIPT_POSITIONS[variant % len(uci.SCRIPT_POSITIONS)]] + cmds
+    sched = ["M:position"] + sched
     r = uci.run_forced(binary, cmds, sched, workdir, tag, watchdog=WATCHDOG)
     r["relaxed"] = None
     if r["rc"] is None and r["consumed"] < len(sched):
@@ -87,7 +92,7 @@ def interactive(args):
         elif c in ("go", "goinf"):
             if c == "go":
                 s.send(rng.choice(["go depth 1", "go depth 2", "go depth 3", "go movetime 15", "go depth 4",
-                                   "go wtime 300 btime 300"]))
+                                   "go wtime 300 btime 300", "go wtime 60000 btime 60000 winc 0 binc 0"]))
                 infinite = False
             else:
                 s.send("go infinite")
